@@ -256,6 +256,31 @@ CLAIMED["C13"] = dict(
          "(ElementPath subset modelled, including that '..' has no meaning at the context node).",
 )
 
+
+# ---- additions after the second round of seeded changes (units added / shared; see DESIGN 10.2)
+EXTRA = {
+ "C01": " Also: Collection.__getitem__/__setitem__/values/items decode the backend's bytes afresh on every read (no cached result object is handed out twice) and store exactly the encoder's output.",
+ "C02": " Also: a buffered write that must be rejected (duplicate of a stored or of an earlier buffered key, oversize key) raises, is dropped from the queue, leaves nothing visible and does not poison later flushes, and get never returns its bytes; reopening a clean file reads back the header fields and every record for all header sizes, including an empty comment or descriptor block.",
+ "C03": " The C02 contracts of UKVFile.put/get are part of this check (shared units): appends after recovery read back.",
+ "C04": " Also: rwlock maps every name of one file (same Path.resolve()) to the same lock file; the C02 units for a rejected buffered write, update_keys and backend.get are part of this check (shared units).",
+ "C05": " Coordinates of three numbers in a non-vector shape ((1,3), (3,1)) are rejected without side effect; an atom deleted earlier in the history (stale parent pointer) is adopted again when bonded.",
+ "C06": " Empty attribute dictionaries are covered (never shared); atoms and bonds of a concatenation belong to the product; copy.deepcopy (through the class's own __deepcopy__ when it has one) shares nothing, nested attribute values included.",
+ "C08": " The unit clause holds for every text/stream entry point (loads_, load_, loads_all_, load_all_); a multi-molecule xyz text keeps each frame's own elements, order and dummy flags.",
+ "C10": " Bond end points and types are part of 'same content'. A hand-written mol2 text with UNITY_ATOM_ATTR/UNITY_BOND_ATTR records truncated at every line is rejected or complete and the reader terminates (a spec-less loop exceeding 3000 iterations on the 20-line text fails the obligation: bounded termination evidence, not a variant proof).",
+ "C11": " rotate_dihedral is checked on three shapes (equal sides, heavier far side, heavier near side).",
+ "C12": " The C11 contract of rotation_matrix_from_vectors is part of this check (shared unit). molli combine's _ml_assemble (iterated join with index shift, real join executed, rotation helpers stubbed) bonds substituent k where attachment point k was, for ascending attachment indices.",
+ "C13": " CDXMLFile(path) discovers labels (bold single-run text boxes, first occurrence of a duplicated text kept) and fragments per file, and two open files with the same label resolve independently; the out-of-plane angle is odd in the sign with the documented magnitude (60/90 degrees); mean_plane (shared with C16) returns the singular vector of the smallest singular value of the centred points.",
+ "C14": " A Conformer handle taken before append/extend still reads and writes the ensemble's current row afterwards.",
+ "C15": " Atoms may be given by index (index 0 included) in the traversal units; get_substr_indices lists images in pattern-atom order whatever order the matcher reports.",
+ "C16": " mean_plane is verified (SVD assumed): decomposes the centred points and returns the singular vector of the smallest singular value; the C11 contract of rotation_matrix_from_vectors is part of this check (shared unit).",
+ "C17": " Class-level envars of a driver class are merged, never modified; JobInput.hash covers every field and JobInput.load(dump(x)) has the same content and hash (msgpack modelled as keeping maps, arrays and leaves).",
+ "C18": " The C17 contracts of run_local and JobInput (hash covers every field; dump/load keeps it) are part of this check (shared units).",
+ "C19": " Proved in addition for 2 conformers x 2 atoms x 2 grid points with all values symbolic (kernels replaced by their mathematical definition, boolean masks by path splitting): aso = (weighted) conformer average of the van der Waals occupancy, aeif = (weighted) average of the nearest-atom charge inside the spheres, nearest atoms looked up within the largest radius; nearest_atom_index asks for the exact nearest neighbour (no eps).",
+}
+for _k, _v in EXTRA.items():
+    CLAIMED[_k]["text"] = CLAIMED[_k]["text"] + _v
+CLAIMED["C19"]["note"] = CLAIMED["C19"]["note"].replace("aso/aeif array algebra is covered by the stand-in only (grids with >= 1 point).", "aso/aeif are proved for one small shape only (2x2x2); other shapes and the float32 path are covered by the stand-in (grids with >= 1 point).")
+
 NOT_APPLICABLE = {
 }
 
